@@ -95,6 +95,7 @@ type subjRes struct {
 	ctlLog    string
 	mutants   []mutRes
 	delivered int
+	survey    []string
 }
 
 func withTxs(b *sim.Block, txs [][]byte) *sim.Block {
@@ -127,7 +128,11 @@ func evalSubject(w *hist.World, c *Case, s *Subject) (*subjRes, *violation) {
 	panicked := func(where string, m *Mut) *violation {
 		for i, r := range w.R {
 			if r.Panicked {
-				return &violation{"node-panic", s.Kind, fmt.Sprintf("replica %d: the application panicked in %s (%s) and shut itself down", i, r.PanicCall, where), minCase(m)}
+				cl := s.Kind
+				if m != nil {
+					cl += "/" + opClass(m.Op)
+				}
+				return &violation{"node-panic", cl, fmt.Sprintf("replica %d: the application panicked in %s (%s) and shut itself down", i, r.PanicCall, where), minCase(m)}
 			}
 		}
 		return nil
@@ -175,6 +180,12 @@ func evalSubject(w *hist.World, c *Case, s *Subject) (*subjRes, *violation) {
 				if pv := panicked("CheckTx of mutant "+m.Op, m); pv != nil {
 					return res, pv
 				}
+				if rc.Code == 0 && os.Getenv("VERIF_C04_SURVEY") != "" {
+					// survey mode (exploration aid, never used by the supervisor): count and go on
+					res.survey = append(res.survey, "checktx-admits/"+s.Kind+"/"+opClass(m.Op))
+					res.mutants = append(res.mutants, mr)
+					continue
+				}
 				if rc.Code == 0 {
 					return res, &violation{"checktx-admits", s.Kind + "/" + opClass(m.Op),
 						fmt.Sprintf("%s mutant %q is admitted by CheckTx (code 0) although it is not authentic: %s. mutant=%s original=%s", s.Kind, m.Op, why, short(m.Bytes), short(s.Orig)), minCase(m)}
@@ -205,13 +216,29 @@ func evalSubject(w *hist.World, c *Case, s *Subject) (*subjRes, *violation) {
 	}
 	_ = w.C.Advance(b1.AppHash, b1.Updates)
 	for k, i := range deliver {
+		if b0.Txs[k].Code == 0 && os.Getenv("VERIF_C04_SURVEY") != "" {
+			res.survey = append(res.survey, "delivertx-executes/"+s.Kind+"/"+opClass(s.Muts[i].Op))
+			continue
+		}
 		if b0.Txs[k].Code == 0 {
 			m := &s.Muts[i]
 			pm, _ := parseTx(m.Bytes)
 			_, why := auth(pm, chainID)
+			eff := "committed state equal to the twin's"
+			if !bytes.Equal(b0.AppHash, b1.AppHash) {
+				diff := sim.DiffDumps(r0.DumpMap(), r1.DumpMap())
+				if len(diff) > 6 {
+					diff = diff[:6]
+				}
+				eff = fmt.Sprintf("committed state differs from the twin's in keys %q (block of %d mutants)", diff, len(deliver))
+			}
 			return res, &violation{"delivertx-executes", s.Kind + "/" + opClass(m.Op),
-				fmt.Sprintf("%s mutant %q succeeds in DeliverTx (code 0) although it is not authentic: %s. mutant=%s original=%s", s.Kind, m.Op, why, short(m.Bytes), short(s.Orig)), minCase(m)}
+				fmt.Sprintf("%s mutant %q succeeds in DeliverTx (code 0) although it is not authentic: %s; %s. mutant=%s original=%s", s.Kind, m.Op, why, eff, short(m.Bytes), short(s.Orig)), minCase(m)}
 		}
+	}
+	if !bytes.Equal(b0.AppHash, b1.AppHash) && os.Getenv("VERIF_C04_SURVEY") != "" {
+		res.survey = append(res.survey, "state-changed/"+s.Kind)
+		return res, &violation{"survey-stop", s.Kind, "survey: state diverged, case ends here", minCase(nil)}
 	}
 	if !bytes.Equal(b0.AppHash, b1.AppHash) {
 		diff := sim.DiffDumps(r0.DumpMap(), r1.DumpMap())
@@ -293,6 +320,9 @@ func record(h *run.H, rs []*subjRes) {
 			h.Class("control-REJECTED:"+r.kind, 1)
 			h.Note(fmt.Sprintf("control rejected %s: check=%d deliver=%d %s", r.kind, r.ctlCheck, r.ctlDeliv, r.ctlLog))
 		}
+		for _, sv := range r.survey {
+			h.Class("SURVEY:"+sv, 1)
+		}
 		for _, m := range r.mutants {
 			key := ""
 			if m.control && m.verdict == "unauthentic" {
@@ -354,6 +384,9 @@ func TestC04(t *testing.T) {
 			r, v := evalSubject(w, c, &c.Subjects[len(c.Subjects)-1])
 			if r != nil {
 				results = append(results, r)
+			}
+			if v != nil && v.oracle == "survey-stop" {
+				break
 			}
 			if v != nil {
 				first = v
